@@ -126,6 +126,7 @@ replace (
 	go.opentelemetry.io/collector/otelcol/otelcoltest => /tmp/wt-C04/otelcol/otelcoltest
 	go.opentelemetry.io/collector/pdata => /tmp/wt-C04/pdata
 	go.opentelemetry.io/collector/pdata/pprofile => /tmp/wt-C04/pdata/pprofile
+	go.opentelemetry.io/collector/pdata/testdata => /tmp/wt-C04/pdata/testdata
 	go.opentelemetry.io/collector/pipeline => /tmp/wt-C04/pipeline
 	go.opentelemetry.io/collector/pipeline/xpipeline => /tmp/wt-C04/pipeline/xpipeline
 	go.opentelemetry.io/collector/processor => /tmp/wt-C04/processor
